@@ -93,3 +93,30 @@ pub mod probe {
         }
     }
 }
+
+/// A forwarder-like contract that uses the documented LOW-LEVEL helper `collect_fee` directly: it authorizes by its
+/// operator only and charges a payer named in the arguments (the helper's docs: "does not perform authorization
+/// checks", refuses `user == current contract` with InvalidUser).  It holds funds of its own, so that charging itself
+/// would be possible if the helper did not refuse it.
+pub mod direct {
+    use soroban_sdk::{contract, contractimpl, symbol_short, Address, Env, Symbol};
+    use stellar_fee_abstraction::{collect_fee, FeeAbstractionApproval};
+    const OP: Symbol = symbol_short!("OP");
+
+    #[contract]
+    pub struct Direct;
+
+    #[contractimpl]
+    impl Direct {
+        pub fn __constructor(e: &Env, operator: Address) {
+            e.storage().instance().set(&OP, &operator);
+        }
+        #[allow(clippy::too_many_arguments)]
+        pub fn collect(e: &Env, token: Address, fee: i128, max_fee: i128, expiration_ledger: u32, user: Address, recipient: Address, eager: bool) {
+            let op: Address = e.storage().instance().get(&OP).unwrap();
+            op.require_auth();
+            let approval = if eager { FeeAbstractionApproval::Eager } else { FeeAbstractionApproval::Lazy };
+            collect_fee(e, &token, fee, max_fee, expiration_ledger, &user, &recipient, approval);
+        }
+    }
+}
